@@ -47,7 +47,7 @@ func (sc *RevScenario) buildViews(obs *RevObs, co *CallObs) []*CertView {
 	}
 	fetchByURL := map[string][]*FetchRec{}
 	for _, f := range obs.Fetches {
-		if f.Caller == w.callerKey() {
+		if f.Caller == w.callerKeyOf(co.Rep) {
 			fetchByURL[f.URL] = append(fetchByURL[f.URL], f)
 		}
 		for _, s := range f.Specs {
@@ -63,7 +63,7 @@ func (sc *RevScenario) buildViews(obs *RevObs, co *CallObs) []*CertView {
 		}
 		for _, s := range cp.OCSP {
 			sv := &SrcView{URL: s.URL, Desc: s.Content.String() + "/fault=" + s.Fault.String() + "/url=" + urlKindNames[s.URLKind]}
-			x := s.X[0]
+			x := s.X[co.Rep]
 			sv.Contacted = x.Rec.Begun
 			sv.TBegin = x.Rec.TBegin
 			if !ocspContactable(s.URLKind) {
@@ -83,7 +83,7 @@ func (sc *RevScenario) buildViews(obs *RevObs, co *CallObs) []*CertView {
 		for _, s := range cp.CRL {
 			sv := &SrcView{URL: s.URL, Desc: fmt.Sprintf("base=%s delta=%v fault=%s url=%s", crlPlanDesc(&s.Base), s.HasDelta, s.BaseFault, urlKindNames[s.URLKind])}
 			if v.IsRoot {
-				sv.Contacted = s.XBase[0].Rec.Begun || len(fetchByURL[s.URL]) > 0
+				sv.Contacted = s.XBase[co.Rep].Rec.Begun || len(fetchByURL[s.URL]) > 0
 				sv.Alts = []string{ClNotContacted}
 				v.CRL = append(v.CRL, sv)
 				continue
@@ -119,7 +119,7 @@ func (sc *RevScenario) buildViews(obs *RevObs, co *CallObs) []*CertView {
 				}
 			case w.Entry == EValidate:
 				// no decorator: derive the delivered bundle from the exchanges
-				xb := s.XBase[0]
+				xb := s.XBase[co.Rep]
 				sv.Contacted = xb.Rec.Begun
 				sv.TBegin = xb.Rec.TBegin
 				if s.URLKind != UNormal && s.URLKind != UUpperHTTP {
@@ -147,7 +147,7 @@ func (sc *RevScenario) buildViews(obs *RevObs, co *CallObs) []*CertView {
 				if len(urls) > 0 {
 					failed = true
 					for j := range urls {
-						xd := s.XDelta[j][0]
+						xd := s.XDelta[j][co.Rep]
 						if !xd.Rec.Begun {
 							break
 						}
